@@ -135,7 +135,7 @@ TCancel    == Is("cancel") /\ ECancel /\ Consume
 TLine == /\ Is("line") /\ NSent >= Ev.k /\ out[Ev.k].line = Ev.b /\ ~chanClosed
          /\ UNCHANGED vars /\ Consume
 TChanClosed == /\ Is("chanclosed") /\ NSent = Len(AllLines)
-               /\ SCloseChan \/ (~Sock /\ SExit(0))
+               /\ SCloseChan \/ SAccClose \/ (~Sock /\ SExit(0))
                /\ Consume
 \* wg.Wait() returned: the goroutines registered with the caller's WaitGroup have exited
 TWgDone == /\ Is("wgdone")
@@ -168,7 +168,7 @@ TSilent ==
      \/ DropHead
      \/ \E w \in Writers : SAccept(w) /\ NeedConn(w) /\ (Relaxed \/ AllSilent \/ SendTurn(w) \/ (Eligible(w) /\ AcceptTurn(w)))
      \/ SAdd /\ NeedConn(acc.cur)
-     \/ (SAcceptFail \/ SCloserStart \/ SCloserWait) /\ NeedCloser
+     \/ (SAcceptFail \/ SCloserStart \/ SCloserWait \/ SAccWait) /\ NeedCloser
      \/ /\ SCloserListener /\ NeedCloser
         /\ AllSilent \/ (~OpensPending /\ \A w \in Writers : HasFuture(w) => h[w].pc # "none")
      \/ SReadDgram /\ (AllSilent \/ (MaySend /\ DgramCompat(buf'[h'[0].key])))
